@@ -416,7 +416,7 @@ def run_cases_chunked(ctx, cases, chunk=1200, par=4):
     bad, failed = [], False
 
     def one(k):
-        return ctx.run_cases('tasks%d' % k, ['Spec.BuildSpec', 'Model.Tasks'], chunks[k])
+        return ctx.run_cases('tasks%d' % k, ['Spec.BuildSpec', 'Model.Tasks'], chunks[k], shard=600)
     with ThreadPoolExecutor(max_workers=par) as ex:
         for k, res in enumerate(ex.map(one, range(len(chunks)))):
             if res is None:
@@ -471,14 +471,14 @@ def families_for(ctx, deep):
         {'kind': 'missing', 'n': 1, 'records': True, 'name': 'missing-1'},
         {'kind': 'missing', 'n': 2, 'records': True, 'name': 'missing-2'},
         {'kind': 'missing', 'n': 3, 'sample': 25, 'records': True, 'name': 'missing-3-sample'},
-        {'kind': 'reqorder', 'n': 4, 'count': 600, 'default_masks': [0, 0x0008, 0x0842, 0x8421, 0x0124, 0x1248],
+        {'kind': 'reqorder', 'n': 4, 'count': 250 if quick else 800, 'default_masks': [0, 0x0008, 0x0842, 0x8421, 0x0124, 0x1248],
          'records': True, 'name': 'request-order-4'},
-        {'kind': 'reqorder', 'n': 5, 'count': 600, 'records': True, 'name': 'request-order-5'},
+        {'kind': 'reqorder', 'n': 5, 'count': 250 if quick else 800, 'records': True, 'name': 'request-order-5'},
     ]
     if quick:
         fams += [
             {'kind': 'canonical', 'n': 4, 'loops': False, 'records': True, 'name': 'canonical-4-loopfree'},
-            {'kind': 'canonical', 'n': 4, 'loops': True, 'only_with_loops': True, 'sample': 150, 'records': True,
+            {'kind': 'canonical', 'n': 4, 'loops': True, 'only_with_loops': True, 'sample': 100, 'records': True,
              'name': 'canonical-4-selfloops-sample'},
             {'kind': 'dag', 'n': 5, 'sample': 120, 'records': True, 'name': 'dag-5-sample'},
         ]
@@ -567,7 +567,7 @@ def run(ctx):
             recs.append(r)
     # a second hash seed changes the iteration order of the dependency sets
     res2 = run_worker(ctx, 'seed1', [
-        {'kind': 'labelled', 'n': 3, 'loops': True, 'records': True, 'name': 'labelled-3-hashseed1'},
+        {'kind': 'labelled', 'n': 3, 'loops': True, 'records': not ctx.quick(), 'name': 'labelled-3-hashseed1'},
         {'kind': 'canonical', 'n': 4, 'loops': False, 'records': True, 'name': 'canonical-4-loopfree-hashseed1'}], 1)
     if res2 is not None:
         for fam in res2['families']:
